@@ -3,7 +3,7 @@
 //!
 //! Cases (`file` is relative to /repo/tests/data/protobuf unless it starts with '/'):
 //!   {"op":"desc","file":F,"type":T}      -> {"messages":[{"name","map_entry","fields":[{"name","json","num","kind",
-//!                                            "enum":[[name,number],..]|null,"msg":full name|null,"card","presence",
+//!                                            "enum":[[name,number],..]|null,"enum_default":n|null,"msg":full name|null,"card","presence",
 //!                                            "packed","is_map","is_list","default":debug text}]}]}
 //!        every message type of the pool T lives in (prost-reflect is reached through the values returned by
 //!        vrl::protobuf::descriptor::get_message_descriptor; its types are never named here)
@@ -107,8 +107,10 @@ fn dump(file: &str, ty: &str) -> J {
         let mut fields = Vec::new();
         for f in m.fields() {
             let kind = f.kind();
+            let mut enum_default = J::Null;
             let (kname, en, msg) = if let Some(e) = kind.as_enum() {
                 let vals: Vec<J> = e.values().map(|v| json!([v.name(), v.number()])).collect();
+                enum_default = json!(e.default_value().number());
                 ("enum".to_string(), J::Array(vals), J::Null)
             } else if let Some(mm) = kind.as_message() {
                 ("message".to_string(), J::Null, json!(mm.full_name()))
@@ -120,7 +122,7 @@ fn dump(file: &str, ty: &str) -> J {
                 "card": lower(format!("{:?}", f.cardinality())), "presence": f.supports_presence(),
                 "packed": f.is_packed(), "is_map": f.is_map(), "is_list": f.is_list(),
                 "oneof": f.containing_oneof().map(|o| o.name().to_string()),
-                "default": format!("{:?}", unset.get_field(&f)),
+                "default": format!("{:?}", unset.get_field(&f)), "enum_default": enum_default,
             }));
         }
         msgs.push(json!({"name": m.full_name(), "map_entry": m.is_map_entry(), "fields": fields}));
